@@ -387,7 +387,8 @@ var IntFunc = function.New(&function.Spec{
 	RefineResult: refineNonNull,
 	Impl: func(args []cty.Value, retType cty.Type) (cty.Value, error) {
 		bf := args[0].AsBigFloat()
-		if bf.IsInt() {
+		if bf.IsInt() || bf.IsInf() {
+			// an infinity has no fractional part to remove (and no big.Int form)
 			return args[0], nil
 		}
 		bi, _ := bf.Int(nil)
